@@ -7,6 +7,9 @@ CONSTANTS
   AllowArm = FALSE
   Patched = TRUE
   MaxOps = 40
+  GDrop = 100
+  GOther = 100
+  GCollect = 100
 SPECIFICATION SimSpec
 INVARIANT Emit
 CHECK_DEADLOCK FALSE
